@@ -260,6 +260,15 @@ func verifSyncPoint() {
 // the harness is blocked when it has not finished 50 ms later, and runs f then
 // (while the harness goroutine is parked), up to 16 times.
 func verifOnBlock(f func()) {
+	verifSched.mu.Lock()
+	if verifSched.active && !verifSched.free {
+		// under a replayed schedule the player starts the hook exactly where the
+		// engine did (the schedule names a thread that does not exist yet)
+		verifSched.onBlock = f
+		verifSched.mu.Unlock()
+		return
+	}
+	verifSched.mu.Unlock()
 	verifState.mu.Lock()
 	gen := verifState.gen
 	done := verifState.doneCh
@@ -506,6 +515,7 @@ var verifSched struct {
 	event   chan struct{}
 	sched   []int
 	drifted string
+	onBlock func()
 }
 
 func verifSchedInit(schedule []int) {
@@ -518,6 +528,7 @@ func verifSchedInit(schedule []int) {
 	verifSched.event = make(chan struct{}, 1024)
 	verifSched.sched = schedule
 	verifSched.drifted = ""
+	verifSched.onBlock = nil
 }
 
 func verifNewThread() int {
@@ -658,8 +669,20 @@ func verifSchedLoop() {
 			if id < len(verifSched.threads) {
 				t = verifSched.threads[id]
 			}
+			hook := verifSched.onBlock
+			spawnHook := t == nil && id == len(verifSched.threads) && hook != nil
 			ready := t != nil && (t.waiting || t.done)
 			verifSched.mu.Unlock()
+			if spawnHook {
+				// the engine ran the terminal hook here: everything else is parked or blocked
+				hid := verifNewThread()
+				go func() {
+					verifThreadBegin(hid)
+					defer verifThreadEnd(hid)
+					hook()
+				}()
+				continue
+			}
 			if ready {
 				break
 			}
